@@ -10,7 +10,7 @@ from mon.gen.heur import make_heuristic
 from mon.ref import mdp as Rf
 
 PROP = "C03"
-CASES = {"quick": 800, "thorough": 12000}
+CASES = {"quick": 800, "thorough": 60000}
 CASE_TIMEOUT = 60
 REQUIRED = ["laostar_calls", "listener_iterations", "node_values_checked_online", "policy_states_walked"]
 RULE = ("random MDP specs (any[gamma<1], proper[gamma in {.5,.9,.99,1}]; absorbing initial states, live "
